@@ -109,12 +109,12 @@ CHECKS = {
         design="DESIGN.md §5 C05",
         technique="Coq proof (byte-layout codecs, RFC 5952 round trip by reduction to part lists with a symbolic sweep of the 256 zero-group masks) + differential correspondence"),
     "C15": dict(
-        text=("13 theorems over all configurations and all busy-port environments (Props/C15.v): start-up never ends in an internal error nor a raw "
+        text=("17 theorems over all configurations and all kernels that answer bind() with busy (EADDRINUSE) or with a refusal (EACCES / EADDRNOTAVAIL / EINVAL per address, port range and protocol) (Props/C15.v): start-up never ends in an internal error nor a raw "
               "OSError; every plan is consistent (loopback defaults, listen addresses excluded unless listed, IPv6 entries iff IPv6 active, bound "
               "listeners on the reported ports, DNS port distinct from the TCP ports, ports <= 65535, user/group/UDP/DNS only when offered); every "
               "documented method name is accepted (on the regenerated method_choices). The code as found is refuted with witnesses (F1, F2, F11, F14, "
-              "F15, F21: all fixed). Tied to /repo by running the real client.main with real method objects on fake sockets obeying the busy-port set, plus the real option parser and cmdline.main."),
-        note="modelled not verified: bind() only fails with EADDRINUSE per a static busy set; getpwnam/getgrnam/resolv.conf are parameters; argparse dispatch.",
+              "F15, F21, F131: all fixed). Tied to /repo by running the real client.main with real method objects on fake sockets obeying the busy-port set and the refusal rules (unprivileged ports, non-local and invalid addresses, no IPv6), the real FirewallClient constructor reading the method from the READY line, plus the real option parser and cmdline.main."),
+        note="modelled not verified: bind() answers from a static busy set and static refusal rules; getpwnam/getgrnam/resolv.conf are parameters; argparse dispatch.",
         design="DESIGN.md §5 C15",
         technique="Coq proof (total decision function with explicit Crash/OsError constructors proved unreachable; consistency by case analysis over the port search) + exhaustive cross-product correspondence"),
 
